@@ -25,6 +25,7 @@ RULE = (
 RULE += '; the class under test may be a derived class that inherits all generated attributes (a base-class instance in a Self position does not conform then)'
 RULE += '; enumerated: a generic class forwarding its parameter to another generic State x every specialisation x boxes of every specialisation'
 RULE += '; protocol conformance may differ between instances of one class; a derived class may re-declare the first attribute'
+RULE += "; parametrised aliases whose parameter is named like the class's type parameter (enumerated); MISSING inside Any-typed containers (enumerated)"
 LEVEL_TEXT = (
     "Differential testing against an independent three-valued conformance relation over the harness's own term AST: "
     "construction must succeed iff every supplied-or-defaulted value conforms, and every stored attribute must be the "
@@ -328,7 +329,8 @@ def gen_class(draw, broken_defaults=True, min_attrs=1):
     derived = (not generic) and not namesake and draw(st.integers(0, 2 if allow_self else 7)) == 0
     if derived and draw(st.booleans()):
         derived = "redeclare"  # ... and re-declares the first attribute (the base class annotates it differently)
-    return {"generic": generic, "targ": targ, "attrs": attrs, "future": future, "namesake": namesake, "derived": derived}, allow_self
+    alias_var = "T" if draw(st.integers(0, 3)) == 0 else None  # aliases spell their parameter like the class does
+    return {"generic": generic, "targ": targ, "attrs": attrs, "future": future, "namesake": namesake, "derived": derived, "alias_var": alias_var}, allow_self
 
 
 def gen_args(draw, cls, mode, omit_required=True):
@@ -466,6 +468,58 @@ def enumerate_cases(tier):
                 elif t["t"] == "tuple_fixed":
                     v = TT.V("tuple", items=[b, TT.V("str", x="s")])
                 yield {"cls": cls, "args": {"a0": v}, "broken_depth": 1}
+    yield from _alias_namesake_cases()
+    # an attribute that admits Missing, has no class-level default and is omitted / given MISSING: stored as MISSING and readable
+    for t in (TT.T("union", alts=[TT.T("int"), TT.T("missing")]), TT.T("missing"), TT.T("union", alts=[TT.T("missing"), TT.T("seq", of=TT.T("str"))]), TT.T("any")):
+        for given in (TT.V("missing"), None):
+            if given is None and t["t"] == "any":
+                continue
+            yield {"cls": {"generic": False, "targ": None, "attrs": [{"name": "a0", "term": t, "default": None}, {"name": "a1", "term": TT.T("int"), "default": TT.V("int", x=1)}]},
+                   "args": {"a0": given, "a1": None}, "broken_depth": 1}  # fmt: skip
+    # MISSING is a value like any other wherever the annotation admits anything (Any, an unspecialised type variable): inside
+    # containers it is kept, entry by entry
+    ms, one = TT.V("missing"), TT.V("int", x=1)
+    for generic, inner in ((False, TT.T("any")), (True, TT.T("tvar"))):
+        for t, v in (
+            (TT.T("map", k=TT.T("str"), v=inner), TT.V("dict", items=[[TT.V("str", x="a"), ms], [TT.V("str", x="b"), one]])),
+            (TT.T("map", k=TT.T("str"), v=inner), TT.V("dict", items=[[TT.V("str", x="a"), ms]])),
+            (TT.T("seq", of=inner), TT.V("list", items=[ms, one, ms])),
+            (TT.T("tuple_var", of=inner), TT.V("tuple", items=[one, ms])),
+            (TT.T("tuple_fixed", items=[inner, TT.T("int")]), TT.V("tuple", items=[ms, one])),
+            (TT.T("map", k=TT.T("str"), v=TT.T("seq", of=inner)), TT.V("dict", items=[[TT.V("str", x="a"), TT.V("list", items=[ms])]])),
+        ):
+            yield {"cls": {"generic": generic, "targ": None, "attrs": [{"name": "a0", "term": t, "default": None}]}, "args": {"a0": v}, "broken_depth": 1}
+
+
+def _alias_namesake_cases():
+    """a parametrised alias whose parameter is NAMED like the class's type parameter, used by an attribute declared
+    before / after the attribute typed by the class parameter: the alias's binding is the alias's own business"""
+    str_, int_ = TT.T("str"), TT.T("int")
+    for body in (TT.T("seq", of=TT.T("var")), TT.T("var"), TT.T("map", k=str_, v=TT.T("var"))):
+        for alias_arg in (str_, int_, TT.T("any")):
+            for targ in TT.TARGS:
+                for order in ("alias-first", "alias-last"):
+                    al = {"name": "a0", "term": TT.T("alias_param", body=body, arg=alias_arg), "default": None}
+                    tv = {"name": "a1", "term": TT.T("tvar"), "default": None}
+                    if order == "alias-last":
+                        al, tv = {**al, "name": "a1"}, {**tv, "name": "a0"}
+                    attrs = sorted([al, tv], key=lambda a: a["name"])
+                    cls = {"generic": True, "targ": targ, "attrs": attrs, "alias_var": "T"}
+                    for v in VALUE_POOL:
+                        if v["v"] == "missing":
+                            continue
+                        yield {"cls": cls, "args": {al["name"]: _ALIAS_GOOD[(body["t"], alias_arg["t"])], tv["name"]: v}, "broken_depth": 1}
+
+
+def _alias_good():
+    out = {}
+    for bt in ("seq", "var", "map"):
+        for at, val in (("str", TT.V("str", x="s")), ("int", TT.V("int", x=3)), ("any", TT.V("str", x="s"))):
+            out[bt, at] = {"seq": TT.V("list", items=[val]), "var": val, "map": TT.V("dict", items=[[TT.V("str", x="k"), val]])}[bt]
+    return out
+
+
+_ALIAS_GOOD = _alias_good()
 
 
 EXHAUSTIVE_MEANS = "the (annotation term x value) matrix: every leaf term and every one-level wrapper of it (thorough: also every union of two leaves) against every value of a fixed pool of ~50 values"
